@@ -59,7 +59,7 @@ Proof.
 Qed.
 
 Ltac sproj :=
-  cbn [kmem kkeep kq ki kidx kdisk ktlog kseq kload ktruth knext ktop klo kdone ksubs kinmem kout
+  cbn [kmem kkeep kq ki kidx kdisk ktlog kseq kload ktruth knext ktop klo kdone ksubs kinmem kout kondisk
        set_mem set_keep set_q set_i set_idx set_disk set_tlog set_load set_truth set_done add_out fst snd] in *.
 Ltac unf := unfold claims, pipe in *; sproj.
 Ltac split_inv H :=
@@ -159,6 +159,8 @@ Proof.
   destruct (kmem s) as [[[vm lm] am]|] eqn:Hm.
   { split_inv H; constructor; unf; try frame. }
   destruct (iP s HI _ _ _ Hf) as [[tsq Ht] [Htr Hd]].
+  destruct (fromk && memN v (kondisk s)) eqn:Hph.
+  { split_inv H; constructor; unf; try frame. }
   split_inv H; constructor; unf; try frame.
   - intros v0 l0 a0 Heq; inversion Heq; subst; auto.
   - intros v0 l0 a0 Heq Hne; inversion Heq; subst. split; [|eauto].
@@ -730,7 +732,7 @@ Proof.
   intros A1 A3 A4 D F2 J4 O Hmem Hload.
   unfold store_delete, engine_delete. sproj.
   set (sq := kseq s1).
-  set (s' := mkK _ _ _ _ _ _ _ _ _ _ _ _ _ _ _ _ _).
+  set (s' := mkK _ _ _ _ _ _ _ _ _ _ _ _ _ _ _ _ _ _).
   assert (Hp' : pipe s' = pipe s1 ++ [STomb sq]) by (unfold pipe; subst s'; sproj; apply app_assoc).
   assert (Hidx : kidx s' = Some (ITomb sq)).
   { subst s'; sproj. destruct (kidx s1) as [o|] eqn:Hi; cbn; auto.
@@ -778,7 +780,7 @@ Definition enq_state (s1 : kst) (v : N) : kst :=
       (sq + 1) (kload s1) (ktruth s1) (knext s1) (Some (Some v, sq))
       (match ktop s1 with Some (Some v', _) => if v' =? v then klo s1 else sq | _ => sq end)
       (match ktop s1 with Some (Some v', _) => if v' =? v then kdone s1 else false | _ => false end)
-      (ksubs s1 ++ [v]) (kinmem s1) (kout s1).
+      (ksubs s1 ++ [v]) (kinmem s1) (kout s1) (kondisk s1).
 
 Lemma store_enqueue_eq c s1 v a : accepts c = true -> a <> Young -> store_enqueue c s1 v a = enq_state s1 v.
 Proof. intros Ha Hy. unfold store_enqueue. rewrite Ha. destruct a; try reflexivity. contradiction Hy; reflexivity. Qed.
@@ -809,7 +811,7 @@ Proof.
   intros A1 A2 A3 A4 B1 B2 D F F2 J4 J3 O P Htr Hmem Hnew.
   assert (Hv : v < knext s1) by (apply A4; auto).
   unfold enq_state. set (sq := kseq s1). fold sq in A1, A2.
-  set (s' := mkK _ _ _ _ _ _ _ _ _ _ _ _ _ _ _ _ _).
+  set (s' := mkK _ _ _ _ _ _ _ _ _ _ _ _ _ _ _ _ _ _).
   assert (Hcase : (exists tsq, ktop s1 = Some (Some v, tsq)) \/
                   ((forall v' sq, In (Some v', sq) (claims s1) -> v' < v) /\
                    (forall tsq, ktop s1 <> Some (Some v, tsq)))).
@@ -994,7 +996,8 @@ Definition ins_state (s : kst) (l : loc) : kst :=
   mkK (if loc_eqb l LOnDisk then None else Some (v, l, Fresh)) (kkeep s) (kq s) (ki s) (kidx s) (kdisk s) (ktlog s)
       (kseq s) [] (Some v) (v + 1) (ktop s) (klo s) (kdone s) (ksubs s)
       (match l with LInMem => kinmem s ++ [v] | _ => kinmem s end)
-      (kout s ++ map (fun x => (fst (fst x), Some v, Some v)) (kload s)).
+      (kout s ++ map (fun x => (fst (fst x), Some v, Some v)) (kload s))
+      (if loc_eqb l LOnDisk then kondisk s ++ [v] else kondisk s).
 
 Lemma ins_out s l i r t : Inv s -> In (i, r, t) (kout (ins_state s l)) -> r = None \/ r = t.
 Proof.
@@ -1116,6 +1119,7 @@ Proof.
   destruct r as [v|]; [|eapply kinv_frame; eauto].
   destruct (kmem s) as [[[vm lm] am]|] eqn:Hm; [eapply kinv_frame; eauto|].
   destruct (iP s HI _ _ _ Hin) as [[tsq Ht] _].
+  destruct (fromk && memN v (kondisk s)) eqn:Hph; [eapply kinv_frame; eauto|].
   constructor; auto.
   - cbn. intros _ vm l0 a0 Hm0 v0 tsq0 Ht0. inversion Hm0; subst. congruence.
   - cbn. intros v0 l0 a0 Hm0. inversion Hm0; subst. discriminate.
